@@ -188,9 +188,10 @@ PROPS = {
         "title": "Replacing an import with a built function redirects all its uses",
         "units": ["V6_api", "V2_reindex", "V3_remap"],
         "obligations": ["V6_api.convert_import_fn_to_local.*", "V6_api.fn:Module::convert_import_fn_to_local", "V6_api.delete_func.*", "V6_api.fn:Module::delete_func",
-                        "V6_api.fn:Function::set_kind", "V6_api.fn:Functions::get_mut", "V6_api.Functions.get_fid_of_import.*", "V6_api.fn:Functions::get_fid_of_import", "V6_api.fn:lemma_first_defined_by", "V6_api.ModuleImports.delete.*", "V6_api.fn:ModuleImports::delete"]
+                        "V6_api.fn:Function::set_kind", "V6_api.fn:Functions::get_mut", "V6_api.Functions.get_fid_of_import.*", "V6_api.fn:Functions::get_fid_of_import", "V6_api.fn:lemma_first_defined_by", "V6_api.ModuleImports.delete.*", "V6_api.fn:ModuleImports::delete",
+                        "V6_api.replace_import.*", "V6_api.fn:FunctionBuilder::replace_import_in_module_with_tag", "V6_api.fn:ModuleImports::get", "V6_api.fn:Types::params", "V6_api.fn:Types::results"]
                        + V2_GENERIC + v2_inst("Function", "Functions") + ["V3_remap.update_fn_instr.*", "V3_remap.fn:update_fn_instr", "V3_remap.refers_to_func.*"],
-        "glue": [ENCODE_GLUE, "FunctionBuilder::replace_import_in_module_with_tag (type comparison, construction of the LocalFunction) is not under contract"],
+        "glue": [ENCODE_GLUE, "FunctionBuilder::replace_import_in_module_with_tag is under contract; ASSUMED there: the element-wise `==` of two Vec<DataType> (named same_signature by R11), str::to_string, and ModuleTypes::get in terms of the abstract signature lookup (the concrete table is V7's)"],
         "design_ref": "DESIGN.md §5 C10",
     },
     "C11": {
